@@ -417,6 +417,12 @@ func (e *specEnv) selector(s *SExpr) Val {
 		cur = nv
 		t = f.Type()
 	}
+	// a map or slice held in a field is a well-formed value (a nil map has no keys, lengths are not negative)
+	if inf := x.vc.info(cur.Sort); inf != nil && (inf.Kind == kMap || inf.Kind == kSlice) && !strings.Contains(cur.T, "!q") {
+		if w := x.vc.wf(cur); w != "true" && w != "" {
+			x.vc.termFact(w)
+		}
+	}
 	return cur
 }
 
@@ -752,6 +758,12 @@ func (e *specEnv) call(s *SExpr) Val {
 	case "any":
 		// any(x): x converted to interface{} (as a sync.Map key, for instance)
 		return x.convertTo(e.st, argv(0), types.NewInterfaceType(nil, nil))
+	case "allocated":
+		// allocated(p): the reference p denotes an object that exists in the current state (below the allocation
+		// frontier), so nothing allocated later can alias it
+		v := argv(0)
+		top := x.lookupHeap(e.st, "top", "Int")
+		return boolVal(fmt.Sprintf("(and (>= %s 0) (< %s %s))", v.T, v.T, top.T))
 	case "fresh":
 		// fresh(p): the reference p was allocated during the call/function (not before its entry)
 		if e.old == nil {
